@@ -207,7 +207,7 @@ static int vf_tvisit(const void * e, cstl_bintree_visit_order_t ord, void * p)
     (void)p;
     vf_ev_id[vf_ev_n] = ((const struct vf_el *)e)->id;
     vf_ev_ord[vf_ev_n] = (int)ord;
-    return vf_ev_n++ == vf_ev_stop ? 5 : 0;
+    return vf_ev_n++ == vf_ev_stop ? VF_STOPVAL(vf_ev_stop) : 0;
 }
 static void vf_check_traversal(void)
 {
@@ -249,7 +249,7 @@ static void vf_check_traversal(void)
         for (stop = 0; stop < total; stop++) {
             vf_ev_n = 0; vf_ev_stop = stop;
             res = T_FOREACH(vf_tvisit, NULL, dir ? CSTL_BINTREE_FOREACH_DIR_REV : CSTL_BINTREE_FOREACH_DIR_FWD);
-            VF_ASSERT(res == 5 && vf_ev_n == stop + 1, "foreach: stops at, and returns, the first non-zero visit result");
+            VF_ASSERT(res == VF_STOPVAL(stop) && vf_ev_n == stop + 1, "foreach: stops at, and returns, the first non-zero visit result");
         }
     }
 }
